@@ -196,6 +196,8 @@ Val(t, env) ==
                env2 == [s \in (DOMAIN env) \cup keys |-> IF s \in keys THEN valOf(s) ELSE env[s]]
            IN IF symbolic THEN Val(t.a[1], env2) ELSE VUndef
       [] k = "expand" -> A(1)
+      \* value-preserving rewritings
+      [] k \in {"rewrite_as_exp", "rewrite_as_sin", "rewrite_as_cos", "expand_as_exp", "trig_to_sqrt", "simplify", "refine"} -> A(1)
       \* 1 off the branch cut (-oo, 1) of acosh, undefined on it (and where that cannot be decided)
       [] k = "offcut_acosh" -> LET v == A(1)
                                IN IF ~(IsNum(v) /\ Exact(v)) THEN VUndef
